@@ -18,7 +18,11 @@ prop(
              thorough=dict(checks=32000, shards=16, timeout=7200)),
     ],
     rule="machine: FailoverGroup with one upstream (shared cache on), concurrency in {1,2,3,8}, rateLimit 1e6/s, 3-4 distinct questions "
-         "drawn from {2 instant queries, 2 range queries with fixed instants and 1/2/3/5 slices, config, flags, 2 metadata}; about 30-40 actions per "
+         "drawn from {2 instant queries, range queries with fixed instants over two expressions, config, flags, 2 metadata}; range questions may share "
+         "their expression and step while asking about different windows: 1/2/3/5 whole slices from 00:00, [0,1h] vs [0,1h30] (same start, other end, "
+         "unsliced), [m*2h, m*2h+1h30] (starts where the trailing slice of an (m+1)-slice window starts); every range caller's result must be exactly "
+         "what the fake answered for ITS window (the fake puts a sample on every requested grid point, so the merged range is determined by "
+         "start/end/step: an answer computed for another window does not fit); about 30-40 actions per "
          "sequence from {start a caller (<=12 unfinished), release one blocked request with success, release one with an error "
          "(500 plain / bad_data / execution / server_error), advance}; the fake server blocks every request until released. After every action: "
          "no question key twice in flight, in flight <= concurrency, no key asked again after a successful answer, no caller panicked; at the end "
@@ -27,12 +31,19 @@ prop(
          "per-request nonce). Non-trivial: at some step >=2 callers of one question were unfinished while a request of it was in flight, and at some "
          "step >=2 distinct questions were in flight together. stress: 3-12 callers x 2-6 waves of the same questions (fresh names per wave), "
          "drawn per-request delays 0-3 ms, GOMAXPROCS in {1,4,16}, optionally every 4th/7th non-range request fails; same counters plus "
-         "'every key seen exactly once' when nothing fails. Non-trivial (stress): >=2 distinct questions were in flight together. "
+         "'every key seen exactly once' when nothing fails, the same per-window answer check, and additionally windows of one expression that have "
+         "whole slices in common ([0,5h-5m], [0,5h30], [2h,6h], 2/3/5-slice windows from 00:00). Non-trivial (stress): >=2 distinct questions were in flight together. "
          "race: the stress property re-run in a child process of the race-enabled test binary; a DATA RACE report naming internal/promapi is a failure.",
     level_text="Generated-schedule search: the order in which the server answers is drawn and enforced by the harness (every request is held), so "
                "server-visible interleavings of callers and answers are explored systematically; interleavings inside pint's critical sections are only "
                "sampled (stress, race detector). Says the invariants held on N action sequences / stress schedules; no proof over all schedules.",
-    level_note="An error is released for a range slice only when no slice of that query is still queued on the client side (all its slices are in flight "
+    level_note="Known-finding classes (both decided from the case + the request concerned, never from text; tolerated only when listed in "
+               "known_findings.json, otherwise violations; the rest of such a schedule is still judged): identical-slice-of-two-windows - two windows of one "
+               "expression/step have a whole slice in common and that identical slice request is in flight / reaches the server once per window (callers "
+               "of one window may then hold different answers for it); window-end-on-slice-boundary - a window ending exactly on a 2h boundary shares a cache "
+               "entry with the interior slice [end-2h, end-1s] of a longer window (CacheKey rounds the end to the step). Windows with common slices are "
+               "generated in the stress layers only: the state machine's scheduler model assumes one request per slice. "
+               "An error is released for a range slice only when no slice of that query is still queued on the client side (all its slices are in flight "
                "or were answered before): otherwise pint's worker can start a queued slice a moment before the failed query's cancel() lands, and the "
                "harness could not tell that short-lived request from one somebody waits for. Sequences that contained such cancellations are judged on "
                "reproduction (the action list must fail again in one of two further runs), others immediately. Successful range-slice answers are sent with "
